@@ -820,6 +820,7 @@ func runC09(c *Ctx) {
 	c09CapturedNode(c, p)
 	c09ReleasedPartEscapes(c, p)
 	c09ReleasedOnceRule(c, p)
+	r.Floor("release-own-tree", c09ReleaseOwnTree(c, p), 5, "release calls outside pkg/sql/ast")
 	r.Rule("memoised-node", "a value memoised by sync.OnceValue / OnceValues whose type is an AST node is used only as the argument of a copying function (clone…, copy…, deepCopy…) or in a nil test")
 	if nm := c09MemoisedNode(c, p, p.ModuleFuncs(), nil); nm == 0 {
 		r.OK("memoised-node", "scan", "-", "no AST node is memoised with sync.OnceValue / OnceValues")
